@@ -1,4 +1,4 @@
-HOOK_COMMITS = ["75c4ba1", "a6cb873", "8a35c75", "5482b4f", "5942103"]
+HOOK_COMMITS = ["75c4ba1", "a6cb873", "8a35c75", "5482b4f", "5942103", "1f599f2"]
 
 NOT_APPLICABLE_REASONS = {}
 
